@@ -77,7 +77,16 @@ def case_st(draw, tie=False):
         ppp = np.ones(d, dtype=int) if draw(st.booleans()) else ppp
     shift = draw(hnp.arrays(np.int64, (n, d), elements=st.integers(-3, 3)))
     single = draw(st.booleans()) if n == 1 else False
-    return {"d": d, "cell": cell, "f": f, "ppp": ppp, "shift": shift, "single": single, "tie": tie}
+    # argument representations a caller may use for the same values: a hand-built integer cell such as
+    # np.diag([10, 10, 10]) (int64), integer displacement arrays, the mask as a list
+    rep = draw(st.sampled_from(["float", "float", "float", "int-cell", "int-both", "mask-list"]))
+    if rep in ("int-cell", "int-both") and not tie:
+        Hi = np.rint(cell["H"] * (1.0 if np.abs(np.diag(cell["H"])).min() >= 2.0 else 4.0))
+        if abs(np.linalg.det(Hi)) >= 0.5 * np.prod(np.abs(np.diag(Hi))) and np.all(np.diag(Hi) != 0):
+            cell = dict(cell, H=Hi)
+        else:
+            rep = "float"
+    return {"d": d, "cell": cell, "f": f, "ppp": ppp, "shift": shift, "single": single, "tie": tie, "rep": rep}
 
 
 def check(case):
@@ -86,9 +95,27 @@ def check(case):
     ppp = case["ppp"]
     f = case["f"]
     R = f @ H
+    rep = case.get("rep", "float")
+    if rep == "int-both":
+        R = np.rint(R)
     n = len(R)
     Hin, Rin = H.copy(), R.copy()
-    out = arr("remove_pbc", remove_pbc(R.copy(), H.copy(), ppp.copy()), shape=(n, d))
+
+    def as_cell(M):      # same values, the representation drawn for this case
+        return M.astype(np.int64) if rep in ("int-cell", "int-both") and np.all(M == np.rint(M)) else M.copy()
+
+    def as_vec(V):
+        return V.astype(np.int64) if rep == "int-both" and np.all(V == np.rint(V)) else V.copy()
+
+    def as_mask(m):
+        return [int(x) for x in m] if rep == "mask-list" else m.copy()
+
+    _lib = remove_pbc
+
+    def remove_pbc_rep(V, M, m):
+        return _lib(as_vec(V), as_cell(M), as_mask(m))
+
+    out = arr("remove_pbc", remove_pbc_rep(R, H, ppp), shape=(n, d)).astype(float)
     scale = np.abs(f).max() + 1.0
     tol = 1e-9 * scale
 
@@ -115,7 +142,7 @@ def check(case):
                 lambda: f"tie handling moved a vector by more than one lattice vector: {dd.tolist()}")
     # (3) invariance under lattice shifts of periodic axes
     Rs = Rin + (case["shift"] * ppp) @ H
-    out_s = arr("remove_pbc(shifted)", remove_pbc(Rs.copy(), H.copy(), ppp.copy()), shape=(n, d))
+    out_s = arr("remove_pbc(shifted)", remove_pbc_rep(Rs, H, ppp), shape=(n, d)).astype(float)
     near_half = (np.abs(np.abs(fi - np.round(fi)) - 0.5) < 1e-6) & (ppp == 1)
     okr = ~near_half.any(axis=1)
     if okr.any():
@@ -125,7 +152,7 @@ def check(case):
         require(np.all(np.abs(dd - np.round(dd)) < 10 * tol) and np.all(np.abs(dd) < 1 + 10 * tol),
                 lambda: f"shifted tie differs by more than one lattice vector: {dd.tolist()}")
     # (4) idempotence (ties excluded: rint of +-0.5 +- ulp may flip)
-    out2 = arr("remove_pbc twice", remove_pbc(out.copy(), H.copy(), ppp.copy()), shape=(n, d))
+    out2 = arr("remove_pbc twice", remove_pbc_rep(out, H, ppp), shape=(n, d)).astype(float)
     if ok.any():
         close("idempotence", out2[ok], out[ok], rtol=1e-9, atol=1e-9 * np.abs(H).max() * scale)
     # (5) orthogonal cells: shortest of all periodic images
@@ -148,7 +175,7 @@ def check(case):
     nshift = np.round(fi - fo)
     moved = np.any(nshift[:, ppp == 1] != 0)
     nontrivial = bool(moved and (case["cell"]["kind"] != "ortho" or not ppp.all() or np.abs(nshift).max() >= 2))
-    tags = [f"d{d}", case["cell"]["kind"], "mask-partial" if not ppp.all() else "mask-full",
+    tags = [f"d{d}", case["cell"]["kind"], "mask-partial" if not ppp.all() else "mask-full", "rep-" + rep,
             *(["general-" + case["cell"]["shape"]] if "shape" in case["cell"] else []),
             "all-|f|<=0.55" if np.abs(f).max() <= 0.55 else ("all-|f|<=1" if np.abs(f).max() <= 1 else "far-images"),
             "inside-cartesian-half-box" if np.all(np.abs(R) <= 0.5 * np.abs(np.diag(H))) else "outside-cartesian-half-box",
